@@ -469,6 +469,117 @@ def runFut {σ : Type} (step : σ → FOp → FObs × σ) : σ → List FOp → 
 def trace {σ : Type} (step : σ → FOp → FObs × σ) (s : σ) (h : List FOp) : List FObs := (runFut step s h).1
 def final {σ : Type} (step : σ → FOp → FObs × σ) (s : σ) (h : List FOp) : σ := (runFut step s h).2
 
+/-! ### round three: the second buffer `send_data_`, `get_send_data()`, move construction and move assignment
+
+`MPIFuture<R,S>` (returned by `igather`, `iscatter`, `iallgather` and the two-argument `iallreduce` of
+`Communication<MPI_Comm>`) owns, besides request and receive buffer, the object that is being sent.  The class is
+modelled field by field — `req_` (with the operation in flight it stands for), `data_`, `send_data_` — so that the move
+operations can be transcribed statement by statement instead of being taken for the identity (as rounds one and two
+did). -/
+
+/-- calls on a two-buffer future: the calls of every future, and `get_send_data()` -/
+inductive FOp2 where
+  | call (o : FOp)
+  | sendData
+  deriving DecidableEq, Repr
+
+/-- `MPIFuture<R,S>`, `S ≠ void`: `base` = `req_` + `data_` (as in `MPIFuture<R>`), `send` = `send_data_`
+(`impl::Buffer<S>`; `none` = the buffer has been emptied by `get_send_data()`) -/
+structure MpiFut2 where
+  base : MpiFut
+  send : Option (List Int)
+  deriving DecidableEq, Repr
+
+namespace MpiFut
+
+/-- `MPIFuture& operator=(MPIFuture&& f){ std::swap(req_, f.req_); std::swap(status_, f.status_);
+std::swap(data_, f.data_); std::swap(send_data_, f.send_data_); return *this; }` for `S = void` (`send_data_` is an
+empty `Buffer<void>`).  One swap per statement; the operation in flight (`incoming`, a ghost of MPI's state) belongs to
+the request.  Result: (`*this`, `f`) — `f` is the temporary that is destroyed at the end of the full expression. -/
+def moveAssign (tgt src : MpiFut) : MpiFut × MpiFut :=
+  -- std::swap(req_, f.req_); std::swap(status_, f.status_);
+  let t1 : MpiFut := { tgt with req := src.req, incoming := src.incoming }
+  let s1 : MpiFut := { src with req := tgt.req, incoming := tgt.incoming }
+  -- std::swap(data_, f.data_);
+  let t2 : MpiFut := { t1 with valid := s1.valid, buf := s1.buf }
+  let s2 : MpiFut := { s1 with valid := t1.valid, buf := t1.buf }
+  (t2, s2)
+
+/-- the target of `MPIFuture(MPIFuture&& f) : req_(MPI_REQUEST_NULL), data_(std::move(f.data_)),
+send_data_(std::move(f.send_data_)) { std::swap(req_, f.req_); std::swap(status_, f.status_); }` (the state of the
+moved-from source is not modelled: design notes section 4) -/
+def moveConstruct (src : MpiFut) : MpiFut :=
+  let t0 : MpiFut := { valid := src.valid, req := .null, buf := src.buf, incoming := [] }
+  { t0 with req := src.req, incoming := src.incoming }
+
+end MpiFut
+
+namespace MpiVoid
+
+def moveAssign (tgt src : MpiVoid) : MpiVoid × MpiVoid :=
+  let t1 : MpiVoid := { tgt with req := src.req }
+  let s1 : MpiVoid := { src with req := tgt.req }
+  ({ t1 with valid := s1.valid }, { s1 with valid := t1.valid })
+
+def moveConstruct (src : MpiVoid) : MpiVoid :=
+  let t0 : MpiVoid := { valid := src.valid, req := .null }
+  { t0 with req := src.req }
+
+end MpiVoid
+
+namespace MpiFut2
+
+/-- `S get_send_data(){ wait(); return send_data_.get(); }` with `Buffer<S>::get(){ S tmp = std::move(*value);
+value.reset(); return tmp; }`.  `wait()` throws on an invalid future (result taken); otherwise the operation is
+complete before the send object is released.  A second call dereferences the emptied buffer: undefined behaviour,
+`none`. -/
+def sendData (f : MpiFut2) : Option (FObs × MpiFut2) :=
+  match MpiFut.wait f.base with
+  | (.errInvalid, _) => some (.errInvalid, f)
+  | (_, b) =>
+    match f.send with
+    | some s => some (.data s, { base := b, send := none })
+    | none => none
+
+/-- the calls of every future act on request and receive buffer only -/
+def step (f : MpiFut2) : FOp2 → Option (FObs × MpiFut2)
+  | .call o => some ((f.base.step o).1, { f with base := (f.base.step o).2 })
+  | .sendData => sendData f
+
+/-- the future returned by a two-buffer operation -/
+def start (initial incoming send : List Int) : MpiFut2 :=
+  { base := MpiFut.start initial incoming, send := some send }
+
+/-- move assignment, all four swaps -/
+def moveAssign (tgt src : MpiFut2) : MpiFut2 × MpiFut2 :=
+  let b := MpiFut.moveAssign tgt.base src.base
+  -- std::swap(send_data_, f.send_data_);
+  ({ base := b.1, send := src.send }, { base := b.2, send := tgt.send })
+
+def moveConstruct (src : MpiFut2) : MpiFut2 :=
+  { base := MpiFut.moveConstruct src.base, send := src.send }
+
+end MpiFut2
+
+/-- run a history of a two-buffer future; `none` = the history runs into undefined behaviour -/
+def runFut2 : MpiFut2 → List FOp2 → Option (List FObs × MpiFut2)
+  | s, [] => some ([], s)
+  | s, o :: os =>
+    match MpiFut2.step s o with
+    | none => none
+    | some r =>
+      match runFut2 r.2 os with
+      | none => none
+      | some rest => some (r.1 :: rest.1, rest.2)
+
+/-- `PseudoFuture<T>` has the implicit move assignment (member-wise): the target takes over `valid_` and `data_` -/
+def PseudoFut.moveAssign (_tgt src : PseudoFut) : PseudoFut := { valid := src.valid, data := src.data }
+def PseudoVoid.moveAssign (_tgt src : PseudoVoid) : PseudoVoid := { valid := src.valid }
+
+/-- `Dune::Future<T>` has the implicit move assignment of its `unique_ptr`: the target takes over the pointer, the
+object it held is deleted, the source becomes null.  Result: (target, source). -/
+def erasedAssign {σ : Type} (_tgt src : Option σ) : Option σ × Option σ := (src, none)
+
 /-! ### the collectives whose results the futures deliver (specification level, rank order) -/
 
 inductive Red where
